@@ -138,7 +138,7 @@ def check_mader(case):
 
 @st.composite
 def sedov_pair(draw):
-    c = draw(cat.sedov_params(types=('standard', 'standard', 'vacuum'), wrappers=False))
+    c = draw(cat.sedov_params(types=('standard', 'standard', 'vacuum', 'singular'), wrappers=False))
     c['t'] = draw(logu(0.2, 3.0))
     c['tau'] = draw(st.one_of(logu(0.2, 0.5), logu(2.0, 5.0)))
     c['fr'] = draw(st.lists(uni(0.5, 0.97), min_size=3, max_size=6))
@@ -196,6 +196,8 @@ def guderley_pair(draw):
 def check_guderley(case):
     o = Out()
     P = case['params']
+    # the other geometry with the same gamma has been solved in this process before (its similarity exponent is a different one)
+    cat.quiet(cat.make_solver(dict(case, params=dict(P, geometry=5 - P['geometry']))), np.array([0.5]), 0.4)
     s = cat.make_solver(case)
     f = fields_of(s)
     t1, t2 = case['t1'], case['t2']
